@@ -7,6 +7,7 @@ package main
 import (
 	"fmt"
 	"go/types"
+	"strings"
 
 	"golang.org/x/tools/go/ssa"
 )
@@ -92,7 +93,7 @@ func (e *Engine) yield() {
 			others = append(others, t)
 		}
 	}
-	if len(others) == 0 || e.preempts >= e.maxPreempts {
+	if len(others) == 0 || e.preempts >= e.maxPreempts || !e.preemptHere() {
 		return
 	}
 	c := e.choose(len(others) + 1)
@@ -560,3 +561,33 @@ func (e *Engine) setupSyncExt() {
 
 // fireTimerFrom fires a timer on behalf of an exiting thread.
 func (e *Engine) fireTimerFrom(t *thread) bool { return e.fireTimer() }
+
+// preemptHere: pre-emptive switches are only considered at visible operations
+// issued by repository code (not by harness code, intrinsics or library code
+// called from them); switches at blocking operations are unaffected.
+func (e *Engine) preemptHere() bool {
+	if e.curInstr == nil || e.curInstr.Parent() == nil {
+		return false
+	}
+	fn := e.curInstr.Parent()
+	if v, ok := e.preemptOK[fn]; ok {
+		return v
+	}
+	ok := false
+	root := fn
+	for root.Parent() != nil {
+		root = root.Parent()
+	}
+	if root.Pkg != nil {
+		p := root.Pkg.Pkg.Path()
+		if strings.HasPrefix(p, repoMod) && p != rtPkg && !strings.HasSuffix(p, "/zzverifself") {
+			pos := e.prog.Fset.Position(fn.Pos())
+			base := pos.Filename[strings.LastIndex(pos.Filename, "/")+1:]
+			ok = !strings.HasPrefix(base, "zz_verif")
+		} else if strings.HasSuffix(p, "/zzverifself") {
+			ok = true
+		}
+	}
+	e.preemptOK[fn] = ok
+	return ok
+}
